@@ -126,7 +126,27 @@ def null_results(repo: str, kinds=None) -> List[dict]:
         from . import rules_null
         prog = program(repo)
         jobs = [(repo, k, n) for k, n in rules_null.jobs(prog)]
-        _CACHE[key] = pool_map(_null_job, jobs)
+        out = pool_map(_null_job, jobs)
+        # the accessor analysis runs as two jobs: fold the subclass part into the main result
+        base = next((r for r in out if r.get('kind') == 'accessors'), None)
+        sub = next((r for r in out if r.get('kind') == 'accessors-sub'), None)
+        if sub is not None:
+            out = [r for r in out if r is not sub]
+            if base is not None and base.get('ok') and sub.get('ok'):
+                have = {(f['rule'], f['func'], f['construct']) for f in base['findings']}
+                base['findings'] += [f for f in sub['findings'] if (f['rule'], f['func'], f['construct']) not in have]
+                for k in ('listings', 'reads', 'parses'):
+                    base.setdefault(k, {}).update(sub.get(k, {}))
+                base['checked'] = sorted(set(base.get('checked', [])) | set(sub.get('checked', [])))
+                base['functions'] = sorted(set(base.get('functions', [])) | set(sub.get('functions', [])))
+                for k, v in sub.get('notes', {}).items():
+                    base['notes'][k] = base['notes'].get(k, 0) + v
+                for k, v in sub.get('sites', {}).items():
+                    base['sites'][k] = sorted({tuple(x) for x in base['sites'].get(k, [])} | {tuple(x) for x in v})
+                base['returns'] = base.get('returns', []) + sub.get('returns', [])
+            elif base is not None and not sub.get('ok'):
+                base.update({'ok': False, 'error': sub.get('error', 'accessors-sub failed')})
+        _CACHE[key] = out
     res = _CACHE[key]
     if kinds:
         res = [r for r in res if r.get('kind') in kinds]
